@@ -5,6 +5,18 @@ var props = map[string]*PropDef{}
 func reg(p *PropDef) { props[p.ID] = p }
 
 func init() {
+	analyzeAssume := []string{
+		"documents are those go-openapi/spec loads; $ref strings are pre-normalised by jsonreference (the model treats them as opaque)",
+		"names range over the C01 alphabet (no '%', '.', '..', empty); header names contain no '/' or '~'; non-body parameters carry no schema; status codes are canonical decimals",
+	}
+	for _, id := range []string{"C11", "C12", "C13"} {
+		reg(&PropDef{
+			ID: id, Level: "proof", FactsOK: true,
+			LeanModules: []string{"Verif.Properties." + id},
+			Streams:     []func(*Ctx) StreamResult{analyzeStream.Run},
+			Assumptions: analyzeAssume,
+		})
+	}
 	mixinAssume := []string{
 		"documents are those go-openapi/spec loads, in serialization normal form (absent == zero value)",
 		"operation ids are unique within each document and none has the form <id>Mixin<N> of another (hypotheses of C18; the generator guarantees them)",
